@@ -341,9 +341,6 @@ class Monatomic(Species):
                 # Only include energy levels below the ionisation energy.
                 g_i = 2 * J_i + 1  # Degeneracy of the energy level.
                 electron_partition_function += g_i * np.exp(-beta * E_i)
-            else:
-                # Stop summing when the ionisation energy is reached.
-                break
 
         return electron_partition_function
 
@@ -404,9 +401,6 @@ class Monatomic(Species):
                 # Only include energy levels below the ionisation energy.
                 g_i = 2 * J_i + 1  # Degeneracy of the energy level.
                 electronic_energy += g_i * E_i * np.exp(-beta * E_i)
-            else:
-                # Stop summing when the ionisation energy is reached.
-                break
 
         electronic_energy /= self.internal_partition_function(T, dE)
         return translational_energy + electronic_energy
